@@ -276,9 +276,17 @@ fn graph_is_cyclic(g: &Graph) -> bool {
 /// declared, symbolic dims = 2, unknown rank = [2], unknown type = f32.
 fn make_inputs(model: &Model) -> Result<Vec<(NodeId, Value)>, &'static str> {
     let mut v = Vec::new();
+    if std::env::var("VC_LOAD_DEBUG").is_ok() {
+        for (id, n) in sorted_nodes(model.verif_graph()) {
+            eprintln!("node {} {:?} shape {:?} kind {}", id.as_u32(), n.name(), n.shape(), if n.as_operator().is_some() { "op" } else if n.as_constant().is_some() { "const" } else { "value" });
+        }
+    }
     let mut total: u128 = 0;
     for (k, id) in model.input_ids().iter().enumerate() {
         let info = model.node_info(*id).ok_or("input id without node")?;
+        if std::env::var("VC_LOAD_DEBUG").is_ok() {
+            eprintln!("input {k}: id {} info {:?}", id.as_u32(), info);
+        }
         let shape: Vec<usize> = match info.shape() {
             Some(dims) => dims
                 .iter()
@@ -312,6 +320,16 @@ fn make_inputs(model: &Model) -> Result<Vec<(NodeId, Value)>, &'static str> {
     Ok(v)
 }
 
+/// In an overflow-checked build every integer operation of the *model's own
+/// computation* (Sub of two i32 tensors, the sum of Split sizes, shape
+/// inference evaluating constant values ...) panics on overflow by
+/// construction of that build; shipped builds wrap. Such panics in the phases
+/// that execute operators say nothing about loading and are labelled, not
+/// failed. In parsing phases an arithmetic-overflow panic stays a violation.
+fn is_checked_arith_panic(p: &vcore::PanicInfo) -> bool {
+    cfg!(debug_assertions) && p.msg.starts_with("attempt to ") && p.msg.ends_with("with overflow")
+}
+
 /// Largest request honoured while model operators execute (constant folding
 /// in an optimising load, `Model::run`); see alloc.rs, Policy::Refuse.
 pub const RUN_ALLOC_CAP: usize = 256 << 20;
@@ -341,9 +359,21 @@ fn run_model(model: &Model, which: &str, progress: &mut dyn FnMut(&str), out: &m
         model.run(ins, &outputs, None).map(|o| o.len())
     });
     alloc::disarm_process();
+    if std::env::var("VC_LOAD_DEBUG").is_ok() {
+        eprintln!("inputs ({which}): {:?}", inputs.iter().map(|(id, v)| (id.as_u32(), format!("{:?}", v.shape()))).collect::<Vec<_>>());
+    }
     match r {
         Ok(Ok(_)) => out.label("run:ok"),
-        Ok(Err(_)) => out.label("run:err"),
+        Ok(Err(e)) => {
+            if std::env::var("VC_LOAD_DEBUG").is_ok() {
+                eprintln!("run error ({which}): {e}");
+            }
+            out.label("run:err")
+        }
+        // Vec::with_capacity beyond isize::MAX: an allocation the model asks for
+        // at run time, i.e. resource use like the allocation-failure abort
+        Err(p) if p.msg == "capacity overflow" => out.label("run:capacity-overflow-panic(resource use, not a violation)"),
+        Err(p) if is_checked_arith_panic(&p) => out.label("run:integer-overflow-panic-on-model-values(overflow-checked build only)"),
         Err(p) => out.fail(
             format!("run-panic:{}", psig(&p)),
             format!("running the model loaded by {which} on inputs conforming to its metadata panicked: {} at {}", p.msg, p.loc()),
@@ -352,9 +382,13 @@ fn run_model(model: &Model, which: &str, progress: &mut dyn FnMut(&str), out: &m
 }
 
 /// The complete oracle. `dir`: scratch directory for the file-based entry
-/// points (None = skip them). `progress` is told which phase is about to
-/// start, so that a supervising parent can attribute a crash or hang.
-pub fn run_case(fmt: Fmt, bytes: &[u8], dir: Option<&Path>, do_run: bool, progress: &mut dyn FnMut(&str)) -> CaseOut {
+/// points (None = skip them). `exec`: also perform the phases that execute
+/// model operators (optimising loads, `Model::run`); these can legitimately
+/// exhaust memory or time, so they need a supervising parent process and are
+/// left out in-process (libFuzzer). `progress` is told which phase is about to
+/// start, so that the parent can attribute a crash or hang.
+pub fn run_case(fmt: Fmt, bytes: &[u8], dir: Option<&Path>, exec: bool, progress: &mut dyn FnMut(&str)) -> CaseOut {
+    let do_run = exec;
     let mut out = CaseOut::default();
     let len = bytes.len();
     let budget = alloc::budget_for(len);
@@ -423,6 +457,9 @@ pub fn run_case(fmt: Fmt, bytes: &[u8], dir: Option<&Path>, do_run: bool, progre
     let mut models: Vec<(Entry, Model)> = Vec::new();
     let mut n_consts = 0usize;
     for e in entries {
+        if !e.bounded() && !exec {
+            continue;
+        }
         if !e.bounded() && out.fails.iter().any(|(s, _)| s.starts_with("constant:")) {
             out.label("opt-on-load:skipped:unsound-constant");
             continue;
@@ -465,6 +502,15 @@ pub fn run_case(fmt: Fmt, bytes: &[u8], dir: Option<&Path>, do_run: bool, progre
             }
         }
         match r {
+            Err(p) if !e.bounded() && p.msg == "capacity overflow" && !matches!(&gate, Gate::Panicked(_)) => {
+                // constant folding asked for more than isize::MAX bytes: resource use
+                out.label("optimising-load:capacity-overflow-panic(resource use, not a violation)")
+            }
+            Err(p) if !e.bounded() && is_checked_arith_panic(&p) && out.labels.iter().any(|l| l == "load:ok") => {
+                // the same bytes loaded without optimisation: the panic comes from
+                // constant folding / shape inference computing with the model's values
+                out.label("optimising-load:integer-overflow-panic-on-model-values(overflow-checked build only)")
+            }
             Err(p) => {
                 // the bare protobuf decode panics the same way => the decoder's (C38's) defect
                 let in_decoder = matches!(&gate, Gate::Panicked(g) if *g == psig(&p)) && !(fmt == Fmt::Rten && !matches!(e, Entry::BufOpt | Entry::BufPlain));
@@ -474,6 +520,9 @@ pub fn run_case(fmt: Fmt, bytes: &[u8], dir: Option<&Path>, do_run: bool, progre
                 )
             }
             Ok(Err(err)) => {
+                if std::env::var("VC_LOAD_DEBUG").is_ok() {
+                    eprintln!("load error ({}): {err}", e.name());
+                }
                 let rten_path = match e {
                     Entry::BufOpt | Entry::BufPlain => has_magic || matches!(gate, Gate::Terminates { sniffed_onnx: false, .. }),
                     Entry::FilePlain | Entry::MmapOpt => fmt == Fmt::Rten,
